@@ -73,7 +73,7 @@ def matrix(stages):
 PROFILES = {
     "C01": {"quick": [CORE4, SEED2, SCALE, dq("mixed")], "thorough": [CORE5, SEED3, CORE3H, FINAL2, SIM, SCALE, dt("mixed"), dt("all")]},
     "C02": {"quick": [CORE3, SEED2, FAIL2, SIZES2, dq("all")], "thorough": [CORE4, SEED3, CORE3H, FAILP, SIZES2, SIM, PROOF, dt("all")]},
-    "C03": {"quick": [CORE3, SEED2, FAIL2, dq("all")], "thorough": [CORE4, SEED3, CORE3H, FAILP, SIZES2, SIM, PROOF, dt("all")]},
+    "C03": {"quick": [CORE3, SEED2, FAIL2, PROOF, dq("all")], "thorough": [CORE4, SEED3, CORE3H, FAILP, SIZES2, SIM, PROOF, dt("all")]},
     "C04": {"quick": [conc("own2", "{1,2}", "cQuick2", sample_every=40), conc("lend3", "{1,2,3}", "cLend2", sample_every=40)],
             "thorough": [conc("own2", "{1,2}", "cQuick2", sample_every=10), conc("lend3", "{1,2,3}", "cLend2", sample_every=10), conc("own3", "{1,2,3}", "cOwn3", sample_every=40)]},
     "C05": {"quick": [FAIL2, dq("fail")], "thorough": [FAILP, SEED2, dt("fail")]},
@@ -82,7 +82,7 @@ PROFILES = {
     "C08": {"quick": [SEED2, PAIRS2, SCALE, dq("mixed")], "thorough": [SEED3, CORE4, CORE3H, SCALE, dt("mixed")]},
     "C09": {"quick": [SEED2, FINAL2, CONV, dq("mixed")], "thorough": [SEED3, CORE4, FINAL2, CONV, dt("mixed")]},
     "C10": {"quick": [SEED2, dq("mixed")], "thorough": [SEED3, CORE4, dt("mixed")]},
-    "C11": {"quick": [SEED2, CORE3, FAIL2, SCALE, dq("all")], "thorough": [SEED3, CORE4, FAIL2, SIZES2, SHRINK2, SCALE, PROOF, dt("all")]},
+    "C11": {"quick": [SEED2, CORE3, FAIL2, SCALE, PROOF, dq("all")], "thorough": [SEED3, CORE4, FAIL2, SIZES2, SHRINK2, SCALE, PROOF, dt("all")]},
     "C12": {"quick": [SEED2, CORE3, FAIL2, SCALE, dq("all")], "thorough": [SEED3, CORE4, FAIL2, SIZES2, SHRINK2, SCALE, dt("all")]},
     "C13": {"quick": [SEED2, SHRINK2, FAIL2, dq("all")], "thorough": [SEED3, CORE4, SHRINK2, FAIL2, SIZES2, dt("all")]},
     "C14": {"quick": [CONV], "thorough": [CONV, {"kind": "sweep", "what": "u32"}, {"kind": "sweep", "what": "i32"}]},
